@@ -190,6 +190,8 @@ def gen_sensor_case(rng, path):
     init = rng.choice(p) if rng.random() < 0.3 else None
     case = dict(path=path, values=family, ts=ts, svals=vals, ends=ends, init=init, greedy=greedy,
                 ar=rng.choice([None, None, False, True]))
+    if greedy is not None and rng.random() < 0.4:
+        case['wrap_greedy'] = True      # greedy values handed over wrapped (default: unwrapped, as documented)
     if P != 2:
         case['P'] = P
     return case
@@ -205,7 +207,8 @@ def wire_sensor(case):
 
 
 def observe_sensor(case):
-    """-> ('ok', events, ids-per-event as descriptors, per-dump descriptors, unique descriptors, slice_ok) | ('err', text)."""
+    """-> ('ok', events, ids-per-event as descriptors, per-dump descriptors, unique descriptors, slices) | ('err', text);
+    slices = [(what, descriptors | 'err: ...', expected descriptors)] for data[:], data[mask] and cache[name]."""
     from katdal.categorical import ComparableArrayWrapper, sensor_to_categorical
     from katdal.sensordata import SensorCache, SimpleSensorGetter
     P = case.get('P', 2)
@@ -216,11 +219,14 @@ def observe_sensor(case):
     if case['init'] is not None:
         kw['initial_value'] = to_python(case['init'])
     if case['greedy'] is not None:
-        # ndarray greedy values wrapped (finding F27), tuples / lists / numbers as documented (unwrapped)
-        kw['greedy_values'] = [ComparableArrayWrapper(to_python(d)) if d[0] == 'nd' else to_python(d) for d in case['greedy']]
+        # as documented: unwrapped, ndarrays included (finding F27, repaired: unwrapped ndarrays made the membership test
+        # raise); case['wrap_greedy']: wrapped, the work-around callers needed before the repair, must keep working
+        kw['greedy_values'] = [ComparableArrayWrapper(to_python(d)) if case.get('wrap_greedy') else to_python(d)
+                               for d in case['greedy']]
     if case['ar'] is not None:
         kw['allow_repeats'] = bool(case['ar'])
     try:
+        cache = None
         if case['path'] == 'values_cache':
             cache = SensorCache({'s': SimpleSensorGetter('s', ts.copy(), vals)}, mid, P / 2.0, props={'s': kw})
             c = cache.get('s')
@@ -230,12 +236,20 @@ def observe_sensor(case):
         uniq = [desc_of(v) for v in c.unique_values]
         per_event = [uniq[int(i)] for i in c.indices]
         per = [desc_of(c[k]) for k in range(len(case['ends']))]
-        try:
-            c[:]
-            slice_ok = True
-        except ValueError:
-            slice_ok = False
-        return ('ok', ev, per_event, per, uniq, slice_ok)
+        # several dumps at once (finding F112, repaired: np.array refused per-dump values of different shapes): one entry
+        # per selected dump, each the value of the single-dump look-up
+        mask = [(k + len(case['ts'])) % 3 != 0 for k in range(len(per))]
+        probes = [('data[:]', lambda: c[:], per), ('data[mask]', lambda: c[np.array(mask)], [d for d, k in zip(per, mask) if k])]
+        if cache is not None:
+            probes.append(('cache[name]', lambda: cache['s'], per))
+        slices = []
+        for what, get, want in probes:
+            try:
+                got = get()
+                slices.append((what, [desc_of(v) for v in got], want))
+            except Exception as e:   # noqa: BLE001
+                slices.append((what, 'err: ' + type(e).__name__ + ': ' + str(e)[:60], want))
+        return ('ok', ev, per_event, per, uniq, slices)
     except Exception as e:   # noqa: BLE001
         return ('err', type(e).__name__ + ': ' + str(e)[:80])
 
@@ -269,7 +283,7 @@ def check_sensor(ctx, case, mo):
     elif not in_domain:
         ctx.disagree(base + ';symptom=answers_out_of_domain', case, ob[1:4], model, 'data returned although no start value is defined')
     else:
-        ev, per_event, per, uniq, slice_ok = ob[1:]
+        ev, per_event, per, uniq, slices = ob[1:]
         o_event = [dec(d) for d in per_event]
         o_per = [dec(d) for d in per]
         want = [cid.get(i, i) for i in spec[1]]
@@ -311,8 +325,19 @@ def check_sensor(ctx, case, mo):
             sig = 'values=nd_nan;symptom=repeated_consecutive_value' if bad == ['repeated_consecutive_value'] and \
                 case['values'] == 'nd_nan' else base + ';symptom=' + bad[0]
             ctx.disagree(sig, case, ob[1:4], model and model[1:], 'result is not well formed: ' + ','.join(bad), spec=want)
-        if not slice_ok:
-            ctx.count('values:data[:]_raises_on_inhomogeneous_shapes')
+        for what, got, wanted in slices:
+            if isinstance(got, str):
+                ctx.disagree(base + ';symptom=getitem_slice_raises', dict(case, probe_what=what), got, None,
+                             '%s raises for an array-valued sensor although every single dump can be looked up' % what, spec=want)
+                break
+            # (stacking dissolves the KIND of a value - tuples / lists / 0-d arrays become rows / scalars of one array - but
+            #  never its shape or elements)
+            if [d[1:] for d in got] != [d[1:] for d in wanted]:
+                ctx.disagree(base + ';symptom=getitem_slice_differs', dict(case, probe_what=what), got, wanted,
+                             '%s differs from the single-dump look-ups' % what, spec=want)
+                break
+        if len(set(d[1] for d in per)) > 1:
+            ctx.count('values:per_dump_values_of_different_shapes')
     ctx.note_case(('sv', case['path'], repr(case['svals']), tuple(case['ts']), tuple(case['ends']), case.get('P', 2),
                    repr(case['init']), repr(case['greedy']), case['ar']),
                   nontrivial=c10.nontrivial(pseudo) or len(set(map(norm, case['svals']))) > 1,
